@@ -10,6 +10,9 @@
     over iteration order) and the formatted offset is a difference of page index and range start.
  R4 the numeric portion `start + offset` must not be an unchecked addition on the user-supplied
     start value (arithmetic-overflow panic in debug builds).
+ R5 every range is written: in a number tree each /Nums entry restarts the numbering at its /St, so
+    an entry is never redundant; the loop of `PageLabelTree::to_dict` over the ranges reaches, on
+    every iteration, the two pushes (page index, label dictionary) onto the /Nums array.
 Not decided: roman numerals; agreement with an independent reader.
 """
 from .. import lib as L
@@ -211,9 +214,45 @@ def r4(ctx):
         ctx.ok("R4", "format_label:start+offset", "no unchecked addition in format_label")
 
 
+def r5(ctx):
+    fn = ctx.fn("page_labels::page_label_tree::PageLabelTree::to_dict", "R5")
+    g = CF.cfg(fn)
+    n = 0
+    for h, body in sorted(g.loops().items()):
+        nexts = [b for b in body if fn.term(b)[0] == "call" and L.is_call_to(fn.term(b)[1], ["Iterator::next"])
+                 and "btree_map" in (fn.term(b)[1].get("self") or "")]
+        if not nexts:
+            continue
+        n += 1
+        pushes = [b for b in body if fn.term(b)[0] == "call" and L.is_call_to(fn.term(b)[1], ["Array::push"])]
+        latches = [s for s, hh in g.back_edges() if hh == h]
+        dest = fn.term(nexts[0])[3][0]
+        y, no = L.discr_edges(fn, dest, 1)
+        some_t = [t for s_, t in y if t in body] or [nexts[0]]
+        outside = set(range(len(fn.blocks))) - set(body)
+        key = "to_dict:every-range-written"
+        if len(pushes) < 2:
+            ctx.violation("R5", key, "the loop over the label ranges pushes %d value(s) per range onto /Nums (expected the page index "
+                          "and the label dictionary)" % len(pushes), fn.where(h))
+            continue
+        w = None
+        for pb in pushes:
+            p = g.path(some_t[0], latches, avoid_blocks=set([pb]) | outside)
+            if p is not None:
+                w = p
+        if w is not None:
+            ctx.violation("R5", key, "an iteration of the loop over the label ranges can reach the next range without writing its "
+                          "/Nums entry (through line(s) %s): every entry of a number tree restarts the numbering at its /St, so a "
+                          "skipped range — even one whose label dictionary repeats the previous one — changes the labels of its pages "
+                          "(1,2,3,1,2,3 becomes 1,2,3,4,5,6)" % sorted(set(fn.line(x) for x in w))[:8], fn.where(w[0]))
+        else:
+            ctx.ok("R5", key, "both pushes lie on every path round the loop", fn.where(h))
+    ctx.floor("R5", "range loop in PageLabelTree::to_dict", n, 1)
+
+
 def run(ctx):
     from ..run import AnchorMissing
-    for r in (r1, r2, r3, r4):
+    for r in (r1, r2, r3, r4, r5):
         try:
             r(ctx)
         except AnchorMissing:
